@@ -1,7 +1,7 @@
 (* C17/Props.v — property-level theorems only (statements + `exact`), each followed by Print Assumptions.
    Tags [FULL]/[PARTIAL]/[REFUTED] are read by bin/check. *)
 From Coq Require Import List NArith Permutation.
-From BLB Require Import Lib.Shuffle C17.Model C17.Proofs C17.Index C17.Spread C17.Top.
+From BLB Require Import Lib.Shuffle C17.Model C17.Proofs C17.Index C17.Spread C17.Top C17.Names C17.NamesEnc.
 Import ListNotations.
 
 (* [FULL] for every reverse index whose levels partition the candidate set, every existing/down set, every
@@ -76,3 +76,37 @@ Theorem alloc_spread_needs_domain_lookup_refuted :
     alloc_verdict topo (candidates cfg tss) existing down num false (Some R') = V_OK.
 Proof. exact hidden_existing_witness. Qed.
 Print Assumptions alloc_spread_needs_domain_lookup_refuted.
+
+(* [FULL] RackBasedFailureDomain.GetFailureDomain (the failure-domain service the placement consults; byte-level
+   model compared with the real function on every run): for every host name written by the convention
+   "letters ++ digits" the rack name is exactly the letters part and the cluster name its first two bytes, so two
+   hosts get the same rack name iff their letters parts are equal (names are globally unique: racks with the same
+   rack letters under different clusters stay different); for ALL names whatsoever the rack name determines the
+   cluster name, the host name is rack name ++ digits and the rack name is cluster name ++ suffix *)
+Theorem rack_based_domain_names_unique_and_nested :
+  (forall l d, no_trailing_digit l -> all_digits d ->
+     rack_of (l ++ d) = l /\ cluster_of (l ++ d) = (if Nat.ltb 2 (length l) then firstn 2 l else l)) /\
+  (forall l1 d1 l2 d2, no_trailing_digit l1 -> all_digits d1 -> no_trailing_digit l2 -> all_digits d2 ->
+     (rack_of (l1 ++ d1) = rack_of (l2 ++ d2) <-> l1 = l2)) /\
+  (forall h1 h2, rack_of h1 = rack_of h2 -> cluster_of h1 = cluster_of h2) /\
+  (forall h, exists d t, h = rack_of h ++ d /\ all_digits d /\ no_trailing_digit (rack_of h) /\
+                         rack_of h = cluster_of h ++ t).
+Proof. exact rack_names_facts. Qed.
+Print Assumptions rack_based_domain_names_unique_and_nested.
+
+(* [FULL] placement through RackBasedFailureDomain: for EVERY set of distinct host names (convention or not) the
+   topology the service derives is a uniform nested forest, hence the whole path names -> chains -> reverse index
+   -> allocation returns, for every candidate set, existing/down set, count, random draw and map order, only
+   results the specification judges OK - including "nothing only when infeasible" (the completeness clause that
+   alloc_model_meets_spec states under the hypothesis `nested`, discharged here for the shipped service) *)
+Theorem placement_through_rack_based_domains_meets_spec :
+  forall names cands cands' ex0 down num o perms,
+    NoDup names ->
+    (forall h, In h cands -> In h (map (hd 0%N) (rack_topology names))) -> NoDup cands ->
+    Permutation cands' cands ->
+    (forall e, In e ex0 -> In e (map (hd 0%N) (rack_topology names))) ->
+    alloc_verdict (rack_topology names) cands ex0 down num false
+      (allocate (build_index (map (chain_of (rack_topology names)) cands')) num
+                (map (chain_of (rack_topology names)) ex0) ex0 down o perms) = V_OK.
+Proof. exact rack_placement_ok. Qed.
+Print Assumptions placement_through_rack_based_domains_meets_spec.
